@@ -47,22 +47,62 @@ __CPROVER_ensures(item->error_msg[JWT_ERR_LEN - 1] == 0)
 	__CPROVER_obeys_contract(jwt_ops->process_eddsa, contract_shape_process_jwk))
 #define JWKS_TAKE_ADDRESSES do { void *volatile p1 = (void *)contract_shape_process_jwk; (void)p1; } while (0)
 
+#define KTY_IS(s, a, b, c, d) ((s)[0] == (a) && (s)[1] == (b) && (((b) == 0) || ((s)[2] == (c) && (((c) == 0) || ((s)[3] == (d) && ((d) == 0 || (s)[4] == 0))))))
 /* jwk_process_values: metadata extraction (shape: writes item metadata only, errors carry a message) */
+#define PV_FRAME(item) (item)->alg, (item)->use, (item)->key_ops, (item)->kid, (item)->error, SPEC_ERRMSG_FRAME(item)
 void contract_shape_jwk_process_values(json_t *jwk, jwk_item_t *item)
 __CPROVER_requires(jwk != NULL && __CPROVER_rw_ok(item, sizeof(*item)))
 __CPROVER_requires(item->error_msg[JWT_ERR_LEN - 1] == 0)
-__CPROVER_assigns(item->alg, item->use, item->key_ops, item->kid, item->error, SPEC_ERRMSG_FRAME(item))
+__CPROVER_assigns(PV_FRAME(item))
 __CPROVER_ensures(item->error_msg[JWT_ERR_LEN - 1] == 0)
 __CPROVER_ensures(item->error == __CPROVER_old(item->error) || item->error == 1)
 __CPROVER_ensures(item->error != 0 ==> (item->error_msg[0] != 0 || __CPROVER_old(item->error) != 0))
 __CPROVER_ensures(__CPROVER_old(item->error_msg[0]) != 0 ==> item->error_msg[0] != 0)
 ;
+#ifdef VERIF_TU_JWKS
+static jwk_key_op_t jwk_key_op_j(json_t *j_op);
+static void jwk_process_values(json_t *jwk, jwk_item_t *item);
+#endif
+/* one entry of key_ops: none or exactly one operation bit; nothing is written */
+extern const char *g_last_strlen_arg; extern json_t g_vj_elem; extern char g_vj_elem_str[12];
+jwk_key_op_t contract_shape_jwk_key_op_j(json_t *j_op)
+__CPROVER_requires(j_op == NULL || (__CPROVER_is_fresh(j_op, sizeof(json_t)) && j_op->type >= JSON_OBJECT && j_op->type <= JSON_NULL && j_op->refcount >= 1 && j_op->refcount < 1000))
+__CPROVER_requires(j_op == NULL || j_op->type != JSON_STRING || (g_vj_len_d < 0x1000000 && __CPROVER_is_fresh(j_op->sval, g_vj_len_d + 1) && j_op->sval[g_vj_len_d] == 0))
+__CPROVER_assigns()
+__CPROVER_ensures(__CPROVER_return_value == JWK_KEY_OP_NONE || __CPROVER_return_value == JWK_KEY_OP_SIGN || __CPROVER_return_value == JWK_KEY_OP_VERIFY ||
+	__CPROVER_return_value == JWK_KEY_OP_ENCRYPT || __CPROVER_return_value == JWK_KEY_OP_DECRYPT || __CPROVER_return_value == JWK_KEY_OP_WRAP ||
+	__CPROVER_return_value == JWK_KEY_OP_UNWRAP || __CPROVER_return_value == JWK_KEY_OP_DERIVE_KEY || __CPROVER_return_value == JWK_KEY_OP_DERIVE_BITS)
+;
+/* the REAL jwk_process_values against the shape above (the frame is the point: kty-specific
+ * fields such as curve, bits, pem, provider_data are out of its reach -- C08) plus what it
+ * reports: alg by its exact RFC name, use "sig"/"enc" exactly, a non-string alg is an error */
+void contract_C08_jwk_process_values(json_t *jwk, jwk_item_t *item)
+__CPROVER_requires(VJ_IS_OBJECT(jwk))
+__CPROVER_requires(VJ_TRACKED_OK(jwk, g_vj_len_a))
+__CPROVER_requires(__CPROVER_is_fresh(g_json_key, 8) && SHORT7(g_json_key) && g_json_key[0] != 0 && g_vj_len_c < 0x1000000)
+__CPROVER_requires(__CPROVER_is_fresh(item, sizeof(*item)) && item->error_msg[JWT_ERR_LEN - 1] == 0)
+__CPROVER_requires(g_vj_len_d == 11)	/* length of the static array-element string of the jansson model */
+__CPROVER_assigns(PV_FRAME(item), g_lib_fail, g_last_strlen, g_last_strlen_arg, g_vj_elem, __CPROVER_object_whole(g_vj_elem_str))
+__CPROVER_ensures(item->error_msg[JWT_ERR_LEN - 1] == 0)
+__CPROVER_ensures(item->error == __CPROVER_old(item->error) || item->error == 1)
+__CPROVER_ensures(item->error != 0 ==> (item->error_msg[0] != 0 || __CPROVER_old(item->error) != 0))
+__CPROVER_ensures(__CPROVER_old(item->error_msg[0]) != 0 ==> item->error_msg[0] != 0)
+__CPROVER_ensures((TRACK3('a', 'l', 'g') && VJ_HAS(jwk) && !VJ_IS_STR(jwk)) ==> item->error != 0)
+__CPROVER_ensures((TRACK3('a', 'l', 'g') && VJ_IS_STR(jwk) && item->alg != JWT_ALG_INVAL) ==> SPEC_NAME_IS(VJ_STR(jwk), item->alg))
+__CPROVER_ensures((TRACK3('a', 'l', 'g') && !VJ_HAS(jwk)) ==> item->alg == __CPROVER_old(item->alg))
+/* (a non-string alg ends the extraction early, with an error) */
+__CPROVER_ensures((TRACK3('u', 's', 'e') && VJ_IS_STR(jwk) && KTY_IS(VJ_STR(jwk), 's', 'i', 'g', 0) && item->error == 0) ==> item->use == JWK_PUB_KEY_USE_SIG)
+__CPROVER_ensures((TRACK3('u', 's', 'e') && VJ_IS_STR(jwk) && KTY_IS(VJ_STR(jwk), 'e', 'n', 'c', 0) && item->error == 0) ==> item->use == JWK_PUB_KEY_USE_ENC)
+__CPROVER_ensures((TRACK3('u', 's', 'e') && !(VJ_IS_STR(jwk) && (KTY_IS(VJ_STR(jwk), 's', 'i', 'g', 0) || KTY_IS(VJ_STR(jwk), 'e', 'n', 'c', 0)))) ==> item->use == __CPROVER_old(item->use))
+__CPROVER_ensures(item->kid == __CPROVER_old(item->kid) || item->kid == NULL || __CPROVER_is_fresh(item->kid, 1))
+;
 
 /* jwk_process_one: one JWK object -> one item; the caller's JSON is only read */
-#define KTY_IS(s, a, b, c, d) ((s)[0] == (a) && (s)[1] == (b) && (((b) == 0) || ((s)[2] == (c) && (((c) == 0) || ((s)[3] == (d) && ((d) == 0 || (s)[4] == 0))))))
 jwk_item_t *contract_C07_jwk_process_one(jwk_set_t *jwk_set, json_t *jwk)
 __CPROVER_requires(__CPROVER_is_fresh(jwk_set, sizeof(*jwk_set)) && jwk_set->error_msg[JWT_ERR_LEN - 1] == 0)
-__CPROVER_requires(VJ_IS_OBJECT(jwk))
+/* the entry of "keys" is ANY JSON value (C07: wrong JSON type in any position) */
+__CPROVER_requires(__CPROVER_is_fresh(jwk, sizeof(vj_t)) && jwk->type >= JSON_OBJECT && jwk->type <= JSON_NULL && jwk->refcount >= 1 && jwk->refcount < 1000)
+__CPROVER_requires(jwk->type == JSON_OBJECT || jwk->tracked == NULL)
 __CPROVER_requires(VJ_TRACKED_OK(jwk, g_vj_len_a))
 __CPROVER_requires(__CPROVER_is_fresh(g_json_key, 8) && SHORT7(g_json_key) && g_json_key[0] != 0 && g_vj_len_c < 0x1000000)
 __CPROVER_requires(VJ_IS_STR(jwk) ==> g_jwk_tracked_str == VJ_STR(jwk))
@@ -72,7 +112,11 @@ __CPROVER_requires(JWKS_OPS_OBEY)
 __CPROVER_assigns(jwk_set->error, SPEC_ERRMSG_FRAME(jwk_set), JWK_GHOSTS)
 /* C17: a NULL result (allocation failure) is reported on the set; the caller's JSON stays intact (frees nothing) */
 __CPROVER_ensures(__CPROVER_return_value == NULL ==> (jwk_set->error != 0 && jwk_set->error_msg[0] != 0))
-__CPROVER_ensures(jwk->type == JSON_OBJECT && jwk->refcount == __CPROVER_old(jwk->refcount))
+__CPROVER_ensures(jwk->type == __CPROVER_old(jwk->type) && jwk->refcount == __CPROVER_old(jwk->refcount))
+/* C07: every entry yields an item -- no item only when the allocator failed */
+__CPROVER_ensures(__CPROVER_return_value == NULL ==> g_lib_fail != 0)
+/* C07: an entry that is not a JSON object yields an item that carries an error */
+__CPROVER_ensures((__CPROVER_return_value != NULL && jwk->type != JSON_OBJECT) ==> __CPROVER_return_value->error != 0)
 /* C07: the item either reports an error with a message or is a usable key object */
 __CPROVER_ensures(__CPROVER_return_value != NULL ==> (__CPROVER_is_fresh(__CPROVER_return_value, sizeof(jwk_item_t)) &&
 	(__CPROVER_return_value->error != 0 ==> __CPROVER_return_value->error_msg[0] != 0) &&
